@@ -733,6 +733,14 @@ impl<'a> Cx<'a> {
                     for &i in order.iter().skip(dropn) {
                         arms.push((e.variants[i].0.clone(), bindable(i)));
                     }
+                    // the dropped arms may be "replaced" by repetitions of arms that are there (the arm count is that of a
+                    // total case, a variant is still unhandled)
+                    if missing && k == Kind::TotalMissing && !arms.is_empty() && self.c.n("repeat", 3) == 0 {
+                        for r in 0..dropn {
+                            let (name, bind) = arms[self.c.n(&format!("rep{}", r), arms.len())].clone();
+                            arms.push((name, bind));
+                        }
+                    }
                     if extra {
                         let pos = self.c.n("xpos", arms.len() + 1);
                         arms.insert(pos, (unk.clone(), self.c.bit("bindunk")));
